@@ -1039,7 +1039,8 @@ func (p *Parser) parseGroupBy(stmt *SelectStatement) error {
 			flushItem()
 			break
 		}
-		if tok.Type == TokenComma {
+		// 只有顶层逗号才分隔分组项；函数参数里的逗号（coalesce(a, b)）属于该项本身
+		if tok.Type == TokenComma && parenLevel == 0 {
 			flushItem()
 			continue
 		}
